@@ -304,8 +304,14 @@ let judge _name ins outs =
                 if not okc then begin k := i; raise Exit end
               done
             with Exit -> ());
-           VPropfail (c, Printf.sprintf "first-fails-after-label=%d(%s) delivered=%s" !k
-                        (if !k >= 1 then List.nth ltoks (!k - 1) else "")
+           let comp =
+             if c <> "delivery_under_windows" then "" else
+             let lsk = take !k ls and ok = take !k o in
+             if not (b_conn lsk ok) then "component=conn_window "
+             else if not (b_stream lsk ok) then "component=stream_window "
+             else "component=no_stranding " in
+           VPropfail (c, Printf.sprintf "first-fails-after-label=%d(%s) %sdelivered=%s" !k
+                        (if !k >= 1 then List.nth ltoks (!k - 1) else "") comp
                         (if !k >= 1 then pr_evs (List.nth o (!k - 1)) else ""))
        | None, Some d -> VPropfail ("frame_size_header", d)
        | None, None ->
